@@ -6,6 +6,8 @@ import (
 	"sync"
 	"sync/atomic"
 	"time"
+
+	"github.com/KevoDB/kevo/pkg/verifhook"
 )
 
 const (
@@ -186,6 +188,7 @@ func (s *SkipList) Insert(e *entry) {
 		node.setNext(level, prev[level].getNext(level))
 		// Link the previous node's next pointer to the new node
 		prev[level].setNext(level, node)
+		verifhook.Point("memtable.insert.level_linked")
 	}
 
 	// Update approximate size
